@@ -9,13 +9,17 @@ package main
 // ` ExpressionList (children 1)` are compared with both.
 //
 //   impl != reference on a well-parenthesised, non-excluded tree  -> C08 violation   (Kind "precedence")
+//   impl != model on a text whose own tree is out of scope: the well-parenthesised tree with the same text is found
+//   by a precedence climb in Go, certified by the driver (same render, WellPar, not excluded), and
+//   impl != ITS reference                                         -> C08 violation   (Kind "precedence")
 //   impl != model (anything else)                                 -> disagreement    (Obligation "pratt-correspondence")
 //   model != reference / roundtrip fails on a WellPar tree        -> disagreement    (the theorem's own statement)
 //   roundtrip succeeds on a tree that is not WellPar              -> disagreement    (WellPar's side conditions are not tight)
 //
 // Spaces of cases:
-//   A  exhaustive: all trees with k binary operators (one representative spelling per precedence class, chosen per
-//      case from the seed) and d "decorations" (each unary minus, NOT or pair of parentheses is one), d <= D[k];
+//   A  exhaustive: all trees with k binary operators (k <= 2 with few decorations: every one of the 19 spellings at
+//      every operator; otherwise one representative spelling per precedence class, chosen per case from the seed)
+//      and d "decorations" (each unary minus, NOT or pair of parentheses is one), d <= D[k];
 //      quick k<=3, thorough k<=4. Leaves are `a`; directly under a minus or a parenthesis also `1`.
 //   B  every concrete spelling: all pairs (o1,o2) of the 19 spellings in both association shapes with and
 //      without parentheses, all single operators over decorated operands, prefix operators before each spelling.
@@ -66,7 +70,11 @@ var c08Leaf1 = &c08E{kind: 'n', s: "1"}
 
 // ---- exhaustive generator
 
-type c08Gen struct{ memo map[[2]int][]*c08E }
+// allSpellings: binary nodes range over all 19 concrete spellings instead of one node per precedence class
+type c08Gen struct {
+	memo         map[[2]int][]*c08E
+	allSpellings bool
+}
 
 func (g *c08Gen) list(k, d int) []*c08E {
 	key := [2]int{k, d}
@@ -102,9 +110,15 @@ func (g *c08Gen) each(k, d int, f func(*c08E)) {
 			for dl := 0; dl <= d; dl++ {
 				ls, rs := g.list(kl, dl), g.list(kr, d-dl)
 				for cls := range c08Spellings {
-					for _, l := range ls {
-						for _, r := range rs {
-							f(&c08E{kind: 'b', cls: cls, l: l, r: r})
+					sps := []string{""}
+					if g.allSpellings {
+						sps = c08Spellings[cls]
+					}
+					for _, sp := range sps {
+						for _, l := range ls {
+							for _, r := range rs {
+								f(&c08E{kind: 'b', s: sp, cls: cls, l: l, r: r})
+							}
 						}
 					}
 				}
@@ -220,6 +234,99 @@ func c08Layout(toks []string, style int) string {
 	return sb.String()
 }
 
+// ---- the well-parenthesised reading of a text
+
+// c08Climb re-associates a token text by the standard precedence climb with the SPECIFICATION's levels
+// (OR 1 < AND 2 < NOT 3 < cmp 4 < || 5 < add 6 < mul 7 < unary 8, `NOT (` binds like unary). It is only a way to
+// FIND the tree: the driver certifies the result (its render is the text, WellPar, not excluded) before it is used.
+type c08Climber struct {
+	toks []string
+	pos  int
+	ok   bool
+}
+
+func (c *c08Climber) cur() string {
+	if c.pos < len(c.toks) {
+		return c.toks[c.pos]
+	}
+	return ""
+}
+
+func (c *c08Climber) expr(min int) *c08E {
+	left := c.prefix()
+	for c.ok {
+		t := c.cur()
+		cls := c08ClassOf(t)
+		if cls < 0 {
+			break
+		}
+		lv := []int{1, 2, 4, 5, 6, 7}[cls]
+		if lv <= min {
+			break
+		}
+		c.pos++
+		right := c.expr(lv)
+		left = &c08E{kind: 'b', s: t, cls: cls, l: left, r: right}
+	}
+	return left
+}
+
+func (c *c08Climber) prefix() *c08E {
+	t := c.cur()
+	c.pos++
+	switch {
+	case t == "(":
+		e := c.expr(0)
+		if c.cur() != ")" {
+			c.ok = false
+		}
+		c.pos++
+		return &c08E{kind: 'p', l: e}
+	case t == "-":
+		return &c08E{kind: '-', l: c.expr(8)}
+	case t == "NOT":
+		if c.cur() == "(" {
+			return &c08E{kind: '!', l: c.expr(8)}
+		}
+		return &c08E{kind: '!', l: c.expr(3)}
+	case t == "" || t == ")" || c08ClassOf(t) >= 0:
+		c.ok = false
+		return c08LeafA
+	case t[0] >= '0' && t[0] <= '9':
+		return &c08E{kind: 'n', s: t}
+	default:
+		return &c08E{kind: 'i', s: t}
+	}
+}
+
+func c08Climb(toks []string) (*c08E, bool) {
+	c := &c08Climber{toks: toks, ok: true}
+	e := c.expr(0)
+	return e, c.ok && c.pos == len(toks)
+}
+
+// c08LitsInRange: no literal above 2^64-1, and no literal above 2^63 directly behind a minus sign (spec `litsInRange`).
+func c08LitsInRange(e *c08E, underNeg bool) bool {
+	switch e.kind {
+	case 'n':
+		d := strings.TrimLeft(e.s, "0")
+		if len(d) > 20 || len(d) == 20 && d > "18446744073709551615" {
+			return false
+		}
+		if underNeg && (len(d) > 19 || len(d) == 19 && d > "9223372036854775808") {
+			return false
+		}
+		return true
+	case 'i':
+		return true
+	case '-':
+		return c08LitsInRange(e.l, true)
+	case 'b':
+		return c08LitsInRange(e.l, false) && c08LitsInRange(e.r, false)
+	}
+	return c08LitsInRange(e.l, false)
+}
+
 // ---- one case
 
 var c08Frame = []string{"SelectWithUnionQuery (children 1)", " ExpressionList (children 1)", "  SelectQuery (children 1)", "   ExpressionList (children 1)"}
@@ -303,7 +410,7 @@ func c08Eval(w *W, idx int, space string, e *c08E) {
 			Disagreement: true, Obligation: "pratt-correspondence"})
 		return
 	}
-	inScope := wp && npc
+	inScope := wp && npc && c08LitsInRange(e, false)
 	w.Eval(in, inScope)
 	if wp {
 		w.Count("wellpar")
@@ -338,6 +445,33 @@ func c08Eval(w *W, idx int, space string, e *c08E) {
 		return
 	}
 	if modelNone || implS != mlinesS {
+		// The case's own tree is not in the property's scope (or agrees with the reference), yet the real code and the
+		// model part ways on this text. Before calling it a mere disagreement, find the well-parenthesised tree that
+		// has this very text and compare the real EXPLAIN with ITS reference: if they differ it is a C08 violation.
+		if e2, ok := c08Climb(toks); ok && c08LitsInRange(e2, false) {
+			var words2 []string
+			noSpell := func(n *c08E) string { return n.s }
+			c08Words(e2, noSpell, &words2)
+			ans2 := strings.Split(w.Model().Ask("c08 "+hex.EncodeToString([]byte(strings.Join(words2, " ")))), " ")
+			if len(ans2) == 7 && ans2[0] == "ok" {
+				t2, _ := c08Unhex(ans2[1])
+				r2, _ := c08Unhex(ans2[6])
+				if t2 == canon && ans2[2] == "1" && ans2[3] == "1" {
+					w.Count("reassociated-reference-compared")
+					if implS != r2 {
+						var sk2 strings.Builder
+						c08Skeleton(e2, noSpell, &sk2)
+						class2 := sk2.String()
+						if c08Ops(e2) > 4 || len(class2) > 90 {
+							class2 = "deep"
+						}
+						w.Report(Finding{Kind: "precedence", Key: "precedence@" + class2, Input: sql, InputHex: hexs(in),
+							Detail: fmt.Sprintf("well-parenthesised tree of this text: %s\nEXPLAIN   %s\nreference %s\nmodel     %s", strings.Join(words2, " "), implS, r2, mlinesS)})
+						return
+					}
+				}
+			}
+		}
 		w.stats.Disagree++
 		w.Report(Finding{Kind: "model-vs-impl", Key: "pratt-correspondence@" + class, Input: sql, InputHex: hexs(in),
 			Detail:       fmt.Sprintf("tree %s\nEXPLAIN %s\nmodel   %s (none=%v)", strings.Join(words, " "), implS, mlinesS, modelNone),
@@ -532,18 +666,26 @@ func c08Calibrate(w *W) {
 func runC08(w *W) {
 	c08Calibrate(w)
 
-	// A: exhaustive
+	// A: exhaustive. For k <= 2 (up to allDeco[k] decorations) every binary node ranges over all 19 spellings, so each
+	// concrete spelling meets every neighbouring class and prefix; beyond that one spelling per class, picked per case.
 	maxDeco := []int{5, 4, 3, 2}
+	allDeco := []int{-1, 4, 2}
 	if w.Thorough() {
 		maxDeco = []int{6, 5, 4, 3, 1}
+		allDeco = []int{-1, 5, 3}
 	}
 	g := &c08Gen{memo: map[[2]int][]*c08E{}}
+	gAll := &c08Gen{memo: map[[2]int][]*c08E{}, allSpellings: true}
 	for k := range maxDeco {
 		for d := 0; d <= maxDeco[k]; d++ {
-			g.each(k, d, func(e *c08E) {
+			gen, space := g, fmt.Sprintf("exhaustive k=%d d=%d", k, d)
+			if k < len(allDeco) && d <= allDeco[k] {
+				gen, space = gAll, fmt.Sprintf("exhaustive-all-spellings k=%d d=%d", k, d)
+			}
+			gen.each(k, d, func(e *c08E) {
 				idx, mine := w.Case()
 				if mine {
-					c08Eval(w, idx, fmt.Sprintf("exhaustive k=%d d=%d", k, d), e)
+					c08Eval(w, idx, space, e)
 				}
 			})
 		}
